@@ -1,7 +1,6 @@
 """C17 — xarray export/import is lossless and uses cell centres as coordinates."""
 import itertools
 import random
-import re
 from fractions import Fraction
 
 import numpy as np
